@@ -130,6 +130,14 @@ impl<'tcx> Cx<'tcx> {
     }
     /// Stable, parseable rendering of a type: full def paths, closures/coroutines by def path (no
     /// source positions), regions erased.
+    /// like `tys`, but a closure / coroutine also shows what it captures (two instantiations of one closure differ)
+    fn tys_full(&self, t: Ty<'tcx>) -> String {
+        match t.kind() {
+            ty::Closure(_, args) => format!("{}|{}", self.tys(t), args.as_closure().upvar_tys().iter().map(|u| self.tys(u)).collect::<Vec<_>>().join(",")),
+            ty::Coroutine(_, args) => format!("{}|{}", self.tys(t), args.as_coroutine().upvar_tys().iter().map(|u| self.tys(u)).collect::<Vec<_>>().join(",")),
+            _ => self.tys(t),
+        }
+    }
     fn tys(&self, t: Ty<'tcx>) -> String {
         let mut o = String::new();
         self.ty_into(t, &mut o, 0);
@@ -774,7 +782,7 @@ impl<'a, 'tcx> Own<'a, 'tcx> {
             let mut map = BTreeMap::new();
             if unify(self.cx, e.pattern, t, &mut map) {
                 let r = e.src.fold_with(&mut Subst { tcx: self.cx.tcx, map: &map });
-                if seen.insert(self.cx.tys(r)) {
+                if seen.insert(self.cx.tys_full(r)) {
                     out.push(r);
                 }
             }
@@ -935,6 +943,9 @@ fn extract<'tcx>(tcx: TyCtxt<'tcx>) {
     let mut table: Vec<DynEntry<'tcx>> = vec![];
     let mut table_sites: BTreeMap<String, Vec<J>> = BTreeMap::new();
     let mut generic_unsize: Vec<(DefId, ty::ParamTy, Ty<'tcx>, String)> = vec![]; // (fn, param, dyn type, loc)
+    // erased values that are not a bare parameter but mention parameters of the enclosing function that the dyn type does
+    // not (a closure capturing a `R: Stream`): (root fn, erased type, dyn type)
+    let mut generic_unsize_ty: Vec<(DefId, Ty<'tcx>, Ty<'tcx>)> = vec![];
     for (did, body) in &pre {
         let did = *did;
         let kind = tcx.def_kind(did);
@@ -1010,6 +1021,20 @@ fn extract<'tcx>(tcx: TyCtxt<'tcx>) {
                                         ("loc", s(loc)),
                                     ]));
                                 } else {
+                                    let params_of = |x: Ty<'tcx>| -> BTreeSet<u32> {
+                                        x.walk().filter_map(|g| g.as_type()).filter_map(|u| if let ty::Param(p) = u.kind() { Some(p.index) } else { None }).collect()
+                                    };
+                                    let mut src_params = params_of(pf);
+                                    if let ty::Closure(_, a) = pf.kind() {
+                                        for u in a.as_closure().upvar_tys().iter() { src_params.extend(params_of(u)); }
+                                    }
+                                    if let ty::Coroutine(_, a) = pf.kind() {
+                                        for u in a.as_coroutine().upvar_tys().iter() { src_params.extend(params_of(u)); }
+                                    }
+                                    let dyn_params = params_of(pt);
+                                    if src_params.iter().any(|i| !dyn_params.contains(i)) {
+                                        generic_unsize_ty.push((tcx.typeck_root_def_id(did), pf, pt));
+                                    }
                                     table.push(DynEntry { pattern: pt, src: pf });
                                     table_sites.entry(k).or_default().push(J::O(vec![
                                         ("src", s(cx.tys(pf))),
@@ -1036,6 +1061,24 @@ fn extract<'tcx>(tcx: TyCtxt<'tcx>) {
         for (_bb, data) in body.basic_blocks.iter_enumerated() {
             if let TerminatorKind::Call { func, .. } = &data.terminator().kind {
                 if let ty::FnDef(cd, ga) = func.ty(&body.local_decls, tcx).kind() {
+                    for (g, srcty, dynty) in &generic_unsize_ty {
+                        if g == cd {
+                            let ga = tcx.erase_and_anonymize_regions(*ga);
+                            let src = ty::EarlyBinder::bind(*srcty).instantiate(tcx, ga).skip_norm_wip();
+                            let src = tcx.erase_and_anonymize_regions(src);
+                            let pat = ty::EarlyBinder::bind(*dynty).instantiate(tcx, ga).skip_norm_wip();
+                            let pat = tcx.erase_and_anonymize_regions(pat);
+                            if cx.tys_full(src) != cx.tys_full(*srcty) {
+                                table_sites.entry(cx.tys(pat)).or_default().push(J::O(vec![
+                                    ("src", s(cx.tys_full(src))),
+                                    ("in", s(cx.path(*did))),
+                                    ("via_generic_fn", s(cx.path(*g))),
+                                    ("loc", s(cx.loc(data.terminator().source_info.span))),
+                                ]));
+                                table.push(DynEntry { pattern: pat, src });
+                            }
+                        }
+                    }
                     for (g, p, dynty, _loc) in &generic_unsize {
                         if g == cd {
                             if let Some(t) = ga.get(p.index as usize).and_then(|a| a.as_type()) {
@@ -1061,7 +1104,7 @@ fn extract<'tcx>(tcx: TyCtxt<'tcx>) {
     }
     {
         let mut seen = BTreeSet::new();
-        table.retain(|e| seen.insert((cx.tys(e.pattern), cx.tys(e.src))));
+        table.retain(|e| seen.insert((cx.tys(e.pattern), cx.tys_full(e.src))));
     }
     let mut dyn_map: BTreeMap<String, Vec<J>> = BTreeMap::new();
     for e in &table {
@@ -1071,7 +1114,7 @@ fn extract<'tcx>(tcx: TyCtxt<'tcx>) {
             ty::Adt(d, _) => ("adt", cx.path(d.did())),
             _ => ("other", String::new()),
         };
-        dyn_map.entry(cx.tys(e.pattern)).or_default().push(J::O(vec![("ty", s(cx.tys(e.src))), ("kind", s(kind)), ("def", s(def))]));
+        dyn_map.entry(cx.tys(e.pattern)).or_default().push(J::O(vec![("ty", s(cx.tys(e.src))), ("kind", s(kind)), ("def", s(def)), ("full", s(cx.tys_full(e.src)))]));
     }
     let dyn_json = J::M(dyn_map
         .into_iter()
